@@ -66,6 +66,14 @@ CLAIMED.update({
    text="(a) every field of the three kinds x ConfigMap in {unset, zero, non-zero} x Secret in {unset, zero, non-zero}, and all ordered pairs of fields across and within sources; (b) all sequences of good / empty / junk-YAML / wrong-type / other-name / bad-base64 updates to either source: after every event Jobs(), JobConfigs(), Cron() must equal the per-field highest-priority setter, or the last good typed value when the merged content is undecodable, never an error after a good value, never a mixture.",
    note="Informers of the loaders are bypassed (Start is a no-op wrapper; the real event handler is called through a verif-tagged accessor). Readers are polled after every event, so last-known-good means last good state.", ref="4 C19"),
 })
+CLAIMED.update({
+ "C02": dict(level="model_checking", tech=MC + "; schedule requests enter through the real EnqueueHandler, syncs through the real cron Reconciler with the real activejobstore",
+   text="BFS over duplicate / out-of-order schedule requests for 1-4 JobConfigs (names a, a.b, a-1, a-1700000000) x 2 schedule times, informer deliveries (lag <= 1-2), reconciler syncs, failing / applied-but-timed-out / lost-race (AlreadyExists) creates, crash and restart (queue lost, requests repeated), user deleting a created Job: every Job create is judged for uniqueness per (owner UID, schedule time), name = <jobconfig>-<unix>, schedule-time annotation, single controller owner, UID label, policy and type; at rest every requested (JobConfig, time) has its Job; retry loops without progress are reported by the bottom-SCC livelock analysis.",
+   note="The CronWorker itself is not part of this world (C01/C03/C04); requests are environment transitions. Trusts the simulated API server's name uniqueness.", ref="4 C02"),
+ "C15": dict(level="model_checking", tech=MC + "; the queue and job controllers are abstracted by environment transitions using the real status computation",
+   text="BFS over creation (scheduled/ad-hoc), start, finish and deletion of <= 3 Jobs (thorough 4) of one JobConfig (schedule enabled/disabled/absent), independent lag of the Job and JobConfig caches (<= 2), failing status writes and restart: at every quiescent state status.activeJobs/queuedJobs/active/queued must equal the authoritative sets and state must be the implied one; every status write is checked for non-decreasing lastScheduled/lastExecuted, and at rest both must cover every Job that was in the controller's cache during a sync whose write took effect, even after deletion.",
+   note="Lister order is fixed (sorted) by the harness: the real controller lists Jobs in Go map order, which only permutes the reference lists. A Job deleted before any sync could see it cannot be reflected by any level-triggered controller; that strict reading is counted in the evidence, not asserted.", ref="4 C15"),
+})
 PENDING_REASON = "check not built yet in this session (planned, see DESIGN.md section 4)"
 
 props = [json.loads(l) for l in open("/verif/properties.jsonl")]
